@@ -123,7 +123,8 @@ fn judge_wilson(n: usize, k: usize, kind: Kind, level: f64, z: f64, exact: bool,
                 Kind::Two => {
                     chk("low", lo, elo, s);
                     chk("high", hi, ehi, s);
-                    if !(lo < phat && phat < hi) {
+                    // (weak: for populations near 2^53 the three values coincide in f64)
+                    if !(lo <= phat && phat <= hi) {
                         s.violation("wilson/estimate-not-inside", format!("ci_wilson({c:?}, {n}, {k}) = [{lo}, {hi}] vs k/n = {phat}"), case());
                     }
                 }
@@ -337,15 +338,25 @@ fn run(tier: Tier) -> Sink {
     // branch today; a future one would show here)
     let mut big = vec![];
     for (kind, level) in vcheck::confs(tier) {
-        for n in [5_000usize, 10_000, 65_537, 100_000, 1_000_000, 123_456_789] {
+        for n in [5_000usize, 10_000, 65_537, 100_000, 1_000_000, 123_456_789, (1 << 32) - 1, 1 << 32, (1 << 32) + 1, 6_000_000_000, 1 << 53] {
             big.push((n, kind, level, z_of(kind, level)));
         }
     }
     let sbig = par_judge(&big, |&(n, kind, level, z), s| {
         for k in [0, 1, 2, 9, 10, 11, n / 1000, n / 100, n / 10, n / 3, n / 2, n - n / 10, n - 11, n - 10, n - 9, n - 2, n - 1, n, n + 1] {
-            let base = judge_wilson(n, k, kind, level, z, false, s);
-            judge_frontend(Fe::Ci, n, k, kind, level, &base, s);
-            judge_wald(n, k, kind, level, z, s);
+            // (integer arithmetic on the counts could overflow here: a panic is a violation,
+            // not a crash of the checker)
+            let mut local = Sink::new();
+            let r = mc::catch(std::panic::AssertUnwindSafe(|| {
+                let base = judge_wilson(n, k, kind, level, z, false, &mut local);
+                judge_frontend(Fe::Ci, n, k, kind, level, &base, &mut local);
+                judge_wald(n, k, kind, level, z, &mut local);
+            }));
+            let l = std::mem::take(s);
+            *s = l.merge(local);
+            if let Err(m) = r {
+                s.violation("wilson/panic-on-large-counts", format!("proportion interval for n={n}, k={k}, {} {level} panicked: {m}", kind.name()), json!({"fe":Fe::CiWilson,"n":n,"k":k,"kind":kind,"level":level}));
+            }
         }
     });
     s = s.merge(sbig);
@@ -411,7 +422,7 @@ fn main() {
     s.sample(json!({"fe":"Ratio","n":22,"k":15,"rate":"15/22","expect":"bit-identical to ci_wilson(22,15)"}));
     s.sample(json!({"fe":"ci_if","bits":[1,0,1,1,0,1,0,1],"expect":"interval of (8,5); negated predicate counts (8,3)"}));
     rep.rule = format!(
-        "every (n,k) with 0<=n<={}, 0<=k<=n+1 (plus 19 counts for each n in {{5e3,1e4,65537,1e5,1e6,123456789}}) x {} confidences (levels x 3 kinds) through ci_wilson and ci_z_normal; ci, Stats::new().ci and ci_wilson_ratio(n,k/n) for n<={}; exact-rational score residual for n<={}; every boolean sequence of length <={} and 3 arrangements x 8 counts for lengths up to 60 through ci_true, ci_if, Stats::from_iter/extend/extend_if/add_*; distinct by (front-end, outcome variant, kind)",
+        "every (n,k) with 0<=n<={}, 0<=k<=n+1 (plus 19 counts for each n in {{5e3,1e4,65537,1e5,1e6,123456789,2^32-1,2^32,2^32+1,6e9,2^53}}) x {} confidences (levels x 3 kinds) through ci_wilson and ci_z_normal; ci, Stats::new().ci and ci_wilson_ratio(n,k/n) for n<={}; exact-rational score residual for n<={}; every boolean sequence of length <={} and 3 arrangements x 8 counts for lengths up to 60 through ci_true, ci_if, Stats::from_iter/extend/extend_if/add_*; distinct by (front-end, outcome variant, kind)",
         tier.pick(1200, 3000),
         vcheck::confs(tier).len(),
         tier.pick(400, 1000),
